@@ -2519,6 +2519,10 @@ func nwGenReiterate(g *vrGen) {
 
 func nwClauses() []vrClause {
 	return []vrClause{
+		{Prop: "C05", Name: "extern-replaceall",
+			Bound: "exhaustive: every string over {' a _} of length <= 9 (quick) / <= 11 (thorough); then random strings of length <= 60 over {' '' a ( : _}",
+			Rule:  "assumed contract of strings.ReplaceAll on the two quoting patterns (specs/20newick.spec, dq / uq): ReplaceAll(ReplaceAll(s, \"'\", \"''\"), \"''\", \"'\") == s and len(ReplaceAll(s, \"'\", \"''\")) >= len(s) - checked on the real standard library",
+			Gen:   nwGenExternReplaceAll, Run: nwRunExternReplaceAll},
 		{Prop: "C05", Name: "name-codec",
 			Bound: "all byte strings of length <= 3 (quick) / <= 4 (thorough) over {space _ ' ( ) , : ; TAB LF CR a 0x80 VT FF NUL DEL 0x85 0xa0 0xff %}; 44 literal names (incl. VT/FF inside names and the texts 50%, %d, %s%s, 100%%); all 1-byte names; all 2-byte names with one byte from that alphabet; then random names of length 4..12",
 			Rule:  "nameFromText(nameToText(s)) == s, and Reader(nameToText(s)+\";\") yields exactly one childless node named s with distance 0",
@@ -2575,5 +2579,41 @@ func nwClauses() []vrClause {
 			Bound: "all ordered trees <= 5 nodes x {PreOrder, PostOrder} x every stop index 0..n; chain of depth 100 at 10 stop indices; random trees <= 60 nodes (a quarter deep-biased) with random stop",
 			Rule:  "ONE iterator value seq := root.PreOrder() (or PostOrder) ranged repeatedly: complete, complete, stopped at item #stop, complete; a fresh value: stopped at item #stop, complete, stopped; every complete pass == the recursive reference order from the start, every stopped pass == its first stop+1 nodes without further callback; two iterators from two calls pulled alternately through iter.Pull (the first one min(stop,n) items ahead) each yield the reference order; no panic",
 			Gen:   nwGenReiterate, Run: nwRunReiterate},
+	}
+}
+
+// ---------------------------------------------------------------------------
+// C05/extern-replaceall: the assumed behaviour of strings.ReplaceAll behind the quoted-name theorem
+
+func nwRunExternReplaceAll(in map[string]any) vrResult {
+	s := vrStr(in["s"])
+	d := strings.ReplaceAll(s, "'", "''")
+	u := strings.ReplaceAll(d, "''", "'")
+	if len(d) < len(s) {
+		return vrResult{OK: false, Observed: fmt.Sprintf("len(dq(%q)) = %d < %d", s, len(d), len(s)), Expected: "len(dq(s)) >= len(s)", Signature: "extern:replaceall"}
+	}
+	if u != s {
+		return vrResult{OK: false, Observed: fmt.Sprintf("uq(dq(%q)) = %q (dq = %q)", s, u, d), Expected: "uq(dq(s)) == s", Signature: "extern:replaceall"}
+	}
+	return vrResult{OK: true, Trivial: s == ""}
+}
+
+func nwGenExternReplaceAll(g *vrGen) {
+	maxLen := 9
+	if g.Thorough() {
+		maxLen = 11
+	}
+	done := vrWords([]byte("'a_"), maxLen, func(w []byte) bool {
+		g.Case(map[string]any{"s": vrB(w)})
+		return !g.Expired()
+	})
+	g.Exhaustive(done)
+	parts := []string{"'", "''", "a", "(", ":", "_"}
+	for i := 0; i < 3000 && !g.Expired(); i++ {
+		var b strings.Builder
+		for n := g.Rand.Intn(30); n > 0; n-- {
+			b.WriteString(parts[g.Rand.Intn(len(parts))])
+		}
+		g.Case(map[string]any{"s": vrS(b.String())})
 	}
 }
